@@ -56,8 +56,8 @@ Print Assumptions cal_buffers_fit_unfixed_refuted.
      type_rt      vnacal_name_to_type(vnacal_type_to_name(t)) = t
      real_rt      rd p x is, by definition, what sscanf("%lf") returns for the text add_double wrote
      cx_rt        the value parse_complex computes from add_complex's text is (rd p re, rd p im)
-     num_rt       rd p x = x when p = VNACAL_MAX_PRECISION ("%a") or p >= 17 (finite values; the
-                  sign of a zero is outside the model, see docs/design_C07.md)
+     num_rt       rd p x = x when p = VNACAL_MAX_PRECISION ("%a") or p >= 17 (every non-NaN double once fix
+                  DJ92 is applied: parse_complex no longer combines the parts by arithmetic)
    ------------------------------------------------------------------------------------------------ *)
 Section NumberText.
   Variable num : Type.
@@ -79,7 +79,7 @@ Section NumberText.
   Hypothesis num_rt : forall p x, exact_prec max_precision p = true -> rd p x = x.
 
   (* save_load_doc: for EVERY container that satisfies the invariants of a vnacal_t the loader insists
-     on (wf_container: per used slot min_dim <= rows, columns (min_dim = 0 as coded, see finding DC1),
+     on (wf_container: per used slot min_dim <= rows, columns (min_dim = 1: fix DC1 is applied, the loader refuses dimensions below 1),
      dimensions fit the type, ports^2 <= INT_MAX/4,
      frequency count fits int, the exported property sub-trees are importable, the frequencies as
      written at fprecision read back non-negative and strictly ascending; names of used slots
@@ -291,3 +291,131 @@ Theorem apply_same_satisfiable :
     end.
 Proof. exact ToyApply.apply_same_versions_satisfiable. Qed.
 Print Assumptions apply_same_satisfiable.
+
+(* ------------------------------------------------------------------------------------------------
+   Review round 2, finding DJ91 (KNOWN, known_findings.d/C07.json).  save_load_doc / cal_roundtrip /
+   legacy_versions assume through wf_container (clause wf_freqs) that the frequencies AS WRITTEN at
+   fprecision read back strictly ascending - the loader's own test on the saved text.  The property
+   quantifies over every accepted precision, so that clause is part of what has to be shown, and it is
+   FALSE of the code: vnacal_save succeeds when two consecutive frequencies get the same text and
+   vnacal_load refuses the file (library: T8 1x1, f = 10000000, 10000002, 10000004 at the default
+   fprecision 6).  The honest headline, with conditions on the STORED container only: *)
+Require Import LV.CalFile.LegacyFreqCollision LV.CalFile.LegacyFreqCollisionEx.
+Section RoundTripOrCollision.
+  Variable num : Type.
+  Variable num0 : num.
+  Variable sc_int : Z -> scalar.
+  Variable sc_real : Z -> num -> scalar.
+  Variable sc_cx : Z -> (num * num) -> scalar.
+  Variable sc_name : string -> scalar.
+  Variable sc_type : ctype -> scalar.
+  Hypothesis int_rt : forall n, - 2147483648 <= n <= 2147483647 -> s_int (sc_int n) = Some n.
+  Hypothesis cx_accepted : forall p z, s_cx (sc_cx p z) = true.
+  Hypothesis name_text : forall n, s_text (sc_name n) = n.
+  Hypothesis type_rt : forall t, s_type (sc_type t) = Some t.
+  Variable cls : num -> rclass.
+  Variable rd : Z -> num -> num.
+  Hypothesis real_rt : forall p x, s_real (sc_real p x) = cls (rd p x).
+  (* number-text layer: a non-negative finite or +inf double printed with p digits reads back non-negative or +inf *)
+  Hypothesis rd_readable : forall p x, readable (cls x) = true -> readable (cls (rd p x)) = true.
+
+  (* for EVERY container whose STORED content is well formed (wf_container_stored: dimensions, names, property
+     sub-trees, stored frequencies non-negative and strictly ascending) and EVERY precisions: the loader model
+     returns the used slots in slot order (as in save_load_doc), OR some used calibration has two consecutive
+     frequencies whose texts at fprecision do not read back ascending (collides: the second <= the first) *)
+  Theorem cal_roundtrip_or_collision : forall v : container num, wf_container_stored num cls v ->
+    load save_vline (Some (save_doc num num0 sc_int sc_real sc_cx sc_name sc_type v))
+      = Ok (map (loaded_cal num num0 sc_real sc_cx (v_fprec num v) (v_dprec num v)) (live num (v_slots num v)))
+    \/ exists c, In c (live num (v_slots num v)) /\ collides num sc_real (v_fprec num v) (k_fvec num c).
+  Proof.
+    exact (roundtrip_or_collision num num0 sc_int sc_real sc_cx sc_name sc_type int_rt cx_accepted name_text type_rt
+             cls rd real_rt rd_readable).
+  Qed.
+End RoundTripOrCollision.
+Print Assumptions cal_roundtrip_or_collision.
+
+(* the unconditional round trip ("every precision the setters accept") is refuted on the faithful models: a
+   number type that loses the last digit below 17 digits satisfies every number-text hypothesis; the stored
+   container (T8 1x1, 10000000 < 10000002 < 10000004) is well formed, the DEFAULT fprecision is accepted by
+   the setter, the saved document is refused (Err EBadMsg), while at 17 digits it loads *)
+Theorem cal_roundtrip_fprecision_refuted :
+  wf_container_stored Round.num Round.cls (Round.box default_fprecision) /\
+  accepts (c_fset save_cfg) default_fprecision = true /\
+  load save_vline (Some (save_doc Round.num 0 Round.sc_int Round.sc_real Round.sc_cx Round.sc_name Round.sc_type
+                           (Round.box default_fprecision))) = Err EBadMsg /\
+  (exists cals, load save_vline (Some (save_doc Round.num 0 Round.sc_int Round.sc_real Round.sc_cx Round.sc_name Round.sc_type
+                                         (Round.box 17))) = Ok cals /\ map c_freqs cals = [3]).
+Proof. exact (conj (Round.box_stored _) Round.box_refused). Qed.
+Print Assumptions cal_roundtrip_fprecision_refuted.
+
+(* the hypotheses of cal_roundtrip_or_collision are met by that instance and the collision disjunct is the
+   one that holds; rd really rounds there (rd 6 10000002 = 10000000); without a collision the loaded
+   frequencies are the rounded ones, not the stored ones *)
+Theorem cal_roundtrip_or_collision_satisfiable :
+  (exists c, In c (live Round.num (v_slots Round.num (Round.box default_fprecision))) /\
+             collides Round.num Round.sc_real default_fprecision (k_fvec Round.num c)) /\
+  (Round.rd 6 10000002 = 10000000 /\ Round.rd 17 10000002 = 10000002).
+Proof. exact (conj Round.box_collides Round.rd_rounds). Qed.
+Print Assumptions cal_roundtrip_or_collision_satisfiable.
+
+(* ------------------------------------------------------------------------------------------------
+   Review round 2, remaining points.
+   * "Equal to the saved precision" for p < 17: cal_roundtrip / cal_equiv say WHERE every number of the file
+     ends up (name, type, dimensions, positions of z0, of every frequency and of every cell) and that its
+     value is rd p of the stored value; rd is constrained only at exact precisions (num_rt).  How close
+     rd p x is to x (|rd p x - x| <= 10^(1-p) |x|) is NOT a theorem: it is checked on every number of every
+     scenario (L.within).  The instance Round (CalFile/LegacyFreqCollisionEx.v) is one where rd really
+     rounds: stored 10000002 < 10000012 < 10000023 at 6 digits load as 10000000 < 10000010 < 10000020. *)
+Require Import QArith.
+Require Import LV.CalFile.LegacyTerms.
+Theorem cal_roundtrip_rounding_regime_example :
+  match load save_vline (Some (save_doc Round.num 0 Round.sc_int Round.sc_real Round.sc_cx Round.sc_name Round.sc_type RoundOk.boxb)) with
+  | Ok [c] => map fst (c_data c) = [XQ (inject_Z 10000000); XQ (inject_Z 10000010); XQ (inject_Z 10000020)]
+  | _ => False
+  end.
+Proof. exact RoundOk.rounded_frequencies_load. Qed.
+Print Assumptions cal_roundtrip_rounding_regime_example.
+
+(* * Shape of the stored error terms.  wf_container puts no constraint on k_terms; e_at answers (num0, num0)
+     outside the table, where the C code would read out of bounds.  Under wf_terms (VL_ERROR_TERMS rows of
+     cal_frequencies entries, the shape _vnacal_calibration_alloc gives) every cell the theorems speak about -
+     0 <= findex < frequencies, 0 <= term < error terms - is a real entry of the table. *)
+Theorem saved_terms_in_bounds : forall (num : Type) (num0 : num) (c : scal num) fi j, wf_terms num c ->
+  0 <= fi < k_freqs num c -> 0 <= j < l_terms (mk_layout (k_type num c) (k_rows num c) (k_cols num c)) ->
+  exists row, nth_error (k_terms num c) (Z.to_nat j) = Some row /\ nth_error row (Z.to_nat fi) = Some (e_at num num0 c fi j).
+Proof. exact e_at_in_bounds. Qed.
+Print Assumptions saved_terms_in_bounds.
+
+(* * emit_parse_terms / legacy_e_matrix_terms are stated for 0 <= rows, columns; the C code only ever has
+     rows, columns >= 1 that fit the type (wf_scal: min_dim = 1, dims_fit): with columns = 0 the packed index
+     k / columns is Coq's k / 0 = 0 and the statements hold for an empty term vector only.  Read "all
+     dimensions" as "all rows, columns >= 1 that fit the type".
+   * apply_same / apply_same_roundtrip_exact are CONGRUENCE corollaries: equal loaded terms are fed to the
+     same function (the proofs do not look inside apply_fill).  Under the name that says so: *)
+Theorem loaded_terms_feed_apply_equally :
+  forall (num : Type) (num0 : num) sc_int sc_real sc_cx sc_name sc_type,
+  (forall n, - 2147483648 <= n <= 2147483647 -> s_int (sc_int n) = Some n) ->
+  (forall p z, s_cx (sc_cx p z) = true) -> (forall n, s_text (sc_name n) = n) -> (forall t, s_type (sc_type t) = Some t) ->
+  forall (O : Ops) (val : string -> O) st minor2 minor3 (v : container num) cals2 cals3 cals1,
+    wf_container num sc_real v -> all_e12 num (v_slots num v) ->
+    load (legacy_vline minor2) (Some (legacy_doc num num0 sc_int sc_real sc_cx sc_name sc_type st v)) = Ok cals2 ->
+    load (v3_vline minor3) (Some (save_doc num num0 sc_int sc_real sc_cx sc_name sc_type v)) = Ok cals3 ->
+    load save_vline (Some (save_doc num num0 sc_int sc_real sc_cx sc_name sc_type v)) = Ok cals1 ->
+    forall findex m,
+      map (fun c => apply_loaded O val c findex m) cals2 = map (fun c => apply_loaded O val c findex m) cals1 /\
+      map (fun c => apply_loaded O val c findex m) cals3 = map (fun c => apply_loaded O val c findex m) cals1.
+Proof. exact apply_same. Qed.
+(*   What vnacal_apply reads from the calibration besides the terms of one frequency - the cal_frequencies == 0
+     test, fmin / fmax for the range check, _vnacal_rfi interpolation of every term at a frequency between the
+     calibration's - is OUTSIDE apply_loaded.  "Applying the loaded calibration gives the same S-parameters" is
+     TESTED ONLY (checks/C07.py, vnacal_apply_m original vs reloaded at knots): bit-exact when both precisions
+     are >= 17 or MAX; within 1e3 * 10^(1 - min(dprecision, 16)) relative for nearly ideal terms when both
+     precisions are >= 6; not compared below.
+   * legacy_versions: ONE new fact (the first conjunct); the second is version_of (VOld 3 _) = Ok 1 by
+     computation, the third is save_load_doc verbatim.  legacy_doc is written as the inverse of what the loader
+     reads; its only external anchor is tests/compat-V2.vnacal (one file, 2x1) and the independent writer.
+   * After fix DJ92 (parse_complex builds the number from its parts) cx_rt and num_rt hold for every double
+     that is not a NaN - signed zeros and infinities included; for a NaN up to sign and payload.  Before it they
+     failed for a real part -0 and for an infinite imaginary part (finding DJ92).
+   * int_rt, real_rt, cx_rt assume the "C" numeric locale (libvna never calls setlocale; a program that sets a
+     locale with a decimal comma changes what printf writes and strtod reads). *)
